@@ -7,14 +7,14 @@ from hypothesis import strategies as st
 
 from vf import harness
 from vf.ceosgen import model, product
-from vf.props import c01, c04, common
+from vf.props import c01, c04, c07, common
 
 ID = "C13"
 LEVEL = "exploration"
 RULE = (
     "Hypothesis draws products with 1..8 images over distinct (polarisation, scan) pairs (one "
     "processing-method letter per product; non-ScanSAR products use the 4 polarisations), in any "
-    "image order, with / without map-projection record, summary lines shuffled or not, opened directly or (one third of the cases) re-opened from index caches written by a first open; every "
+    "image order, with / without map-projection record, summary lines shuffled or not, opened directly or (one third of the cases) re-opened from index caches written by a first open - all of them, or a generated per-image layout (user cache dir / next to the image / no index, so cache hits and misses interleave); every "
     "image has its own geometry, pixels and per-line metadata (from the value seed). Oracle: root "
     "children exactly {summary, metadata, imagery}; /imagery children == the expected names in "
     "summary (key) order; each group's pixels (bit-exact) and line metadata (full model) are "
@@ -46,13 +46,17 @@ def cases(draw):
         "rpc": draw(st.sampled_from([1, 2, 1024])),
         # the tree assembled from index caches (written by a first open) must be the same tree
         "via_cache": draw(st.sampled_from([False, False, True])),
+        # which images still have their index at the judged open, and where: per image one of
+        # user cache dir / next to the image / none (None = all in the user cache dir)
+        "cache_layout": draw(st.one_of(st.none(), st.integers(0, 10**6))),
         "vseed": draw(st.integers(0, 2**32 - 1)),
     }
 
 
 def plan(tier):
     n = 320 if tier == "quick" else 10000
-    return [{"kind": "hyp", "name": "products", "strategy": cases(), "examples": n}]
+    return [{"kind": "hyp", "name": "products", "strategy": cases(), "examples": n},
+            {"kind": "hyp", "name": "in-place-pairs", "strategy": common.in_place_pairs(cases()), "examples": max(40, n // 16)}]
 
 
 def classify(case):
@@ -63,7 +67,7 @@ def classify(case):
     if case["shuffle_summary"] is not None:
         labels.append("shuffled-summary")
     if case.get("via_cache"):
-        labels.append("via-cache")
+        labels.append("via-cache" if case.get("cache_layout") is None else "via-partial-cache")
     return n >= 2, labels
 
 
@@ -83,6 +87,15 @@ def run_case(case):
                 _, err = harness.guard(harness.open_tree, prod.url, create_cache=True, use_cache=False, records_per_chunk=1024)
                 if err is not None:
                     return [harness.disc("exception", "open_alos2(create_cache=True)", "a tree", harness.exc_text(err))]
+                if case.get("cache_layout") is not None:
+                    rng = random.Random(case["cache_layout"])
+                    for name in info["names"]["sar_imagery"]:
+                        where = rng.choice(["user", "adjacent", "none"])
+                        p = c07.user_index_path(prod.url, name)
+                        if where == "adjacent":
+                            (prod.dir / f"{name}.index").write_text(p.read_text())
+                        if where != "user":
+                            p.unlink()
                 tree, err = harness.guard(harness.open_tree, prod.url, records_per_chunk=case["rpc"])
             else:
                 tree, err = harness.guard(harness.open_tree, prod.url, use_cache=False, records_per_chunk=case["rpc"])
@@ -93,8 +106,6 @@ def run_case(case):
                 return [harness.disc("exception", "flatten", "loadable tree", harness.exc_text(err))]
         finally:
             if via_cache:
-                from vf.props import c07
-
                 for name in info["names"]["sar_imagery"]:
                     p = c07.user_index_path(prod.url, name)
                     p.unlink(missing_ok=True)
